@@ -40,13 +40,14 @@ THEOREMS = [("Kopf.Props.C15", "Kopf.C15." + n) for n in (
     "match_eq_doc_partial", "match_eq_doc_update", "match_eq_doc_nonchanging",
     "doc_gap_old_only_witness", "doc_gap_callback_token_witness", "doc_gap_token_literal_witness",
     "matchesMetadata_iff", "matchesLabels_iff", "dedup_nodup", "dedup_first_kept", "dedup_sublist", "dedup_ids_same",
-    "prematch_of_match", "selected_iff", "selected_sound", "selected_once", "stealth", "stealth_total",
+    "prematch_of_match", "selected_iff", "selected_sound", "selected_once",
+    "stealth_exact", "stealth_total_partial", "stealth_partial", "stealth_carried_witness", "stealth_blocked_witness",
 )]
 TIE_THEOREMS = [("Kopf.Tie.C15", "Kopf.C15.Tie." + n) for n in (
     "match_eq", "prematch_eq", "resource_eq", "subresource_eq", "subresource_nonwebhook", "when_eq", "labels_eq",
     "annotations_eq", "metadata_step_eq", "field_values_eq", "values_eq", "change_eq", "old_side_eq", "new_side_eq",
     "sides_src_eq", "field_changes_eq", "iter_plain_eq", "requires_finalizer_eq", "dedup_key_eq", "blind_eq",
-    "finalizer_decision_eq", "release_eq",
+    "finalizer_decision_eq", "release_eq", "early_exit_eq",
 )]
 RULE = ("handler declaration = labels x annotations criterion in {none, 'x', 'y', PRESENT, ABSENT, callback(is 'x')} x "
         "[no field | field x value x old x new in the same six x field_needs_change] x when in {none, true-fn, false-fn}; "
@@ -456,6 +457,24 @@ def extract(ctx: Ctx) -> None:
     for st in (add, rem[0]):
         if "changing_cause = None" not in [pyextract.norm(s) for s in st.body]:
             raise ExtractError("process_resource_causes: a finalizer change no longer suppresses the high-level handling")
+    # the carried patch: `patch_initially_empty = not patch` first, later folded into the consistency
+    if pyextract.norm(pbody[0]) != "patch_initially_empty = not patch":
+        raise ExtractError("process_resource_causes: `patch_initially_empty = not patch` is no longer the first statement")
+    folds = [s for s in pbody if isinstance(s, ast.Assign) and pyextract.norm(s.targets[0]) == "consistency_is_achieved"
+             and "patch_initially_empty" in pyextract.norm(s.value)]
+    req = [s for s in pbody if isinstance(s, ast.Assign) and pyextract.norm(s.targets[0]) == "consistency_is_required"]
+    exits = [s for s in pbody if isinstance(s, ast.If) and len(s.body) == 1 and isinstance(s.body[0], ast.Return)]
+    if len(folds) != 1 or len(req) != 1 or len(exits) != 1 or pyextract.norm(req[0].value) != "changing_cause is not None" \
+            or pyextract.norm(exits[0].body[0]) != "return (list(spawning_delays), False)":
+        raise ExtractError("process_resource_causes: the consistency / carried-patch exit changed shape")
+    pos = {id(s): i for i, s in enumerate(pbody)}
+    pcc_call = [i for i, s in enumerate(pbody) if isinstance(s, ast.If) and any(
+        isinstance(n, ast.Call) and pyextract.norm(n.func) == "process_changing_cause" for n in ast.walk(s))]
+    if not (pos[id(req[0])] < pos[id(folds[0])] < pos[id(exits[0])] and len(pcc_call) == 1 and pos[id(exits[0])] < pcc_call[0]
+            and pos[id(exits[0])] < pos[id(rem[1])] and pos[id(rem[0])] < pos[id(req[0])]):
+        raise ExtractError("process_resource_causes: the early exit no longer sits between the finalizer decision and the handling/release")
+    fold = pyextract.BoolTranslator(_vocab({"consistency_is_achieved": "a.achievedBefore", "patch_initially_empty": "(!a.carried)"})).tr(folds[0].value)
+    emit("earlyExitCore", "ExitAtoms", pyextract.BoolTranslator(_vocab({"consistency_is_required": "a.required"}) | {"consistency_is_achieved": fold}).tr(exits[0].test))
     # nothing else may append to patch.fns in this function
     n_app = sum(1 for n in ast.walk(prc) if isinstance(n, ast.Call) and pyextract.norm(n.func) == "patch.fns.append")
     if n_app != 3:
@@ -1060,7 +1079,7 @@ def eval_grid(env: Env, rec: Rec, hs: list[dict], sts: list[dict], what: str, *,
         queue[0].extend(reqs)
         queue[1].extend(pending)
     else:
-        flush(rec, driver or leanio.Driver(), reqs, pending)
+        flush(rec, driver or leanio.Driver(["C15"]), reqs, pending)
 
 
 def compare_grid(rec: Rec, what: str, impl: tuple, out: Any) -> None:
@@ -1349,6 +1368,10 @@ def run_dedup_case(env: Env, rec: Rec, keys: list[list], driver_reqs: list, pend
 # =============================================================================================
 # (D) whole cycles: real process_resource_event, writes observed; the stealth clause
 # =============================================================================================
+def carried_user_fn(body: Any) -> None:
+    """a handler's JSON-patch transformation (`patch.fns`) left over from a rejected patch"""
+
+
 def random_cycle_case(rng: random.Random) -> dict:
     small = [None, {"v": "x"}, "P", "A", {"cb": "is_x"}]
     hs = []
@@ -1375,7 +1398,7 @@ def random_cycle_case(rng: random.Random) -> dict:
     return {"handlers": hs, "label": lv, "annotation": av, "field": nv, "stored": ov,
             "event": rng.choice(["ADDED", "MODIFIED", "MODIFIED", None, "DELETED"]),
             "own_finalizer": rng.random() < 0.3, "foreign_finalizer": rng.random() < 0.2,
-            "marked": rng.random() < 0.25, "stopped": []}
+            "marked": rng.random() < 0.25, "stopped": [], "carried": rng.random() < 0.2}
 
 
 async def run_cycle_case(env: Env, rec: Rec, case: dict, driver_reqs: list, pending: list) -> None:
@@ -1438,11 +1461,16 @@ async def run_cycle_case(env: Env, rec: Rec, case: dict, driver_reqs: list, pend
     P._detect_causes, P.process_resource_causes, P.process_changing_cause = detect, prc, pcc
     A.patch_and_check = pac
     D.spawn_daemons, D.match_daemons, D.pause_daemons, D.stop_daemons = spawn, nodelays, nodelays, nodelays
+    carried = bool(case.get("carried", False))
     try:
         memories = env.inventory.ResourceMemories()
+        memobase = env.ephemera.Memo()
+        if carried:   # an earlier cycle's handler transformation whose JSON-patch was rejected (HTTP 422)
+            mem = await memories.recall(body, noticed_by_listing=case["event"] is None, memobase=memobase)
+            mem.remaining_patch = env.patches.Patch(fns=[carried_user_fn])
         await P.process_resource_event(
             lifecycle=env.lifecycles.all_at_once, indexers=env.indexing.OperatorIndexers(), registry=registry, settings=settings,
-            memories=memories, memobase=env.ephemera.Memo(), resource=env.resource,
+            memories=memories, memobase=memobase, resource=env.resource,
             raw_event={"type": case["event"], "object": body}, event_queue=asyncio.Queue(), no_throttling=True)
     finally:
         (P._detect_causes, P.process_resource_causes, P.process_changing_cause, A.patch_and_check,
@@ -1454,8 +1482,8 @@ async def run_cycle_case(env: Env, rec: Rec, case: dict, driver_reqs: list, pend
     by_param = {n_: h for n_, h in enumerate(hs)}
     watch_called = [by_param[p]["id"] for _, p in called if by_param[p]["_cls"] == "watching"]
     changing_called = [by_param[p]["id"] for _, p in called if by_param[p]["_cls"] == "changing"]
-    impl = {"watch": sorted(watch_called), "spawn": sorted(obs["spawn"] or []),
-            "fins": [{"block_deletion": "fin+", "allow_deletion": "fin-"}.get(f, f) for f in fns],
+    impl = {"carried": "carried_user_fn" in fns, "watch": sorted(watch_called), "spawn": sorted(obs["spawn"] or []),
+            "fins": [{"block_deletion": "fin+", "allow_deletion": "fin-"}.get(f, f) for f in fns if f != "carried_user_fn"],
             "handle": sorted(changing_called) if obs["handled"] else None}
     rec.evaluations += 1
     cs = obs["causes"]
@@ -1481,7 +1509,11 @@ async def run_cycle_case(env: Env, rec: Rec, case: dict, driver_reqs: list, pend
     if all(v is not None for v in object_level):
         nobody = not any(object_level)
         rec.count("cycle: matched by no handler", nobody)
-        if nobody and not case["own_finalizer"]:
+        if carried:
+            # by design: the re-sent transformation is the retry of a write that a legitimately invoked
+            # handler of an earlier cycle produced (Lean: stealth_carried_witness); not judged
+            rec.count("cycle: matched by no handler, carried patch re-sent (not judged)", nobody)
+        if nobody and not case["own_finalizer"] and not carried:
             if patch_dict or fns or called or obs["spawn"] or any(a["patch"] or a["fns"] for a in obs["applied"]):
                 dev_ok = next((s for dev, s in DEVIATIONS
                                if any(doc_prematch(h, sts[h["_cls"]], dev) for h in hs)), None)
@@ -1491,12 +1523,12 @@ async def run_cycle_case(env: Env, rec: Rec, case: dict, driver_reqs: list, pend
         rec.count("oracle", "undefined (cycle)")
     rec.nontrivial.add(f"cycle|{len(hs)}|{case['event']}|{int(case['own_finalizer'])}{int(case['marked'])}|"
                        f"{'-' if cs.changing_cause is None else cs.changing_cause.reason.value}|{impl['fins']}|"
-                       f"{impl['handle'] is not None}|{len(impl['watch'])}|{len(impl['spawn'])}")
+                       f"{impl['handle'] is not None}|{len(impl['watch'])}|{len(impl['spawn'])}|c{int(carried)}")
     # ---- the tie: the model's cycle on the same registry, causes and object flags
     def side(cls: str) -> list:
         return [lean_h(h) for h in hs if h["_cls"] == cls]
     o = {"deleted": case["event"] == "DELETED", "ongoing": case["marked"], "blocked": case["own_finalizer"],
-         "nodelays": not obs["delays"]}
+         "nodelays": not obs["delays"], "carried": carried}
     driver_reqs.append(["C15.cycle", side("watching"), side("spawning"), side("changing"),
                         lean_c(sts["watching"]), lean_c(sts["spawning"]), lean_c(sts["changing"]), o, case["stopped"]])
     pending.append(("cycle effects", impl, replay))
@@ -1506,9 +1538,11 @@ def model_effects(out: Any) -> Any:
     """the model's effect list → the same abstraction as the observed one"""
     if not (isinstance(out, list) and out and out[0] == "ok"):
         return out
-    r: dict[str, Any] = {"watch": [], "spawn": [], "fins": [], "handle": None}
+    r: dict[str, Any] = {"carried": False, "watch": [], "spawn": [], "fins": [], "handle": None}
     for e in out[1]:
-        if e[0] == "watch":
+        if e[0] == "carried":
+            r["carried"] = True
+        elif e[0] == "watch":
             r["watch"] = sorted(e[1])
         elif e[0] == "spawn":
             r["spawn"] = sorted(e[1])
@@ -1535,7 +1569,7 @@ def ask(driver: leanio.Driver, reqs: list) -> list:
         except leanio.LeanError as e:
             last = e
             time.sleep(1 + 2 * attempt)
-            leanio.lake_build(["Kopf.Drv.All"])
+            leanio.lake_build(driver.build_targets())
     raise DriverUnavailable(f"Lean driver does not run: {last}; {getattr(last, 'log', '')[-500:]}")
 
 
@@ -1567,7 +1601,7 @@ def _worker(args: tuple) -> Rec:
         causes = [env.cause(st) for st in sts]
         wsts = std_watching_states()
         wcauses = [env.cause(st) for st in wsts]
-        drv = leanio.Driver()
+        drv = leanio.Driver(["C15"])
         for a in range(lo, hi, 512):
             hs = [nth_changing_handler(k) for k in range(a, min(hi, a + 512))]
             eval_grid(env, rec, hs, sts, "changing handler x changing cause", use_model=use_model, driver=drv, causes=causes)
@@ -1607,12 +1641,12 @@ def fixed_sweeps(env: Env, rec: Rec, use_model: bool = True, full: bool = True, 
         sts = ms if cls == "changing" else [dict(st, _cls=cls, ch=False, o=None, n=None) for st in ms]
         eval_grid(env, rec, sub, sts, "extended metadata criteria", **kw)
     if use_model:
-        flush(rec, leanio.Driver(), q[0], q[1])
+        flush(rec, leanio.Driver(["C15"]), q[0], q[1])
 
 
 def run_corpus(env: Env, rec: Rec) -> None:
     import asyncio
-    drv = leanio.Driver()
+    drv = leanio.Driver(["C15"])
     reqs: list = []
     pending: list = []
     for name, data in load_corpus(ID):
@@ -1646,7 +1680,7 @@ def run(ctx: Ctx) -> None:
     env = Env()
     rec = Rec()
     rng = ctx.rng
-    drv = leanio.Driver()
+    drv = leanio.Driver(["C15"])
     run_corpus(env, rec)
     exhaustive = ctx.tier == "thorough" and float(os.environ.get("VERIF_SCALE", "1")) >= 1
     fixed_sweeps(env, rec, full=ctx.tier == "thorough", rng=rng)
@@ -1744,7 +1778,7 @@ def search(ctx: Ctx, broken: list) -> None:
 def replay(ctx: Ctx, data: dict) -> None:
     env = Env()
     rec = Rec()
-    drv = leanio.Driver()
+    drv = leanio.Driver(["C15"])
     reqs: list = []
     pending: list = []
     case = data.get("replay", data.get("first", data))
